@@ -28,6 +28,10 @@ TRUSTED = [
     "on random histories against the real stores and by an exhaustive short-string correspondence of the naming layer",
     "translator/c13_names2lean.py (AST translation of the naming slice of DataStoreDirectory into Gen/C13Names.lean, conventions N1-N4 in its header; "
     "get_format_suffixes, str.replace, pathlib stem/name and the regex primitives stay hand models tied by the short-string stream)",
+    "translator/c13_fmt2lean.py (get_format_suffixes -> Gen/C13Fmt.lean, conventions F1-F4: pathlib suffix/suffixes, the regex ^\\., lower(), "
+    "list indexing; each tied to the real function by the `fmt` stream) and translator/c13_sql2lean.py (DataStoreSqlite guards, identifier rewriting, "
+    "SQL column/value pairing and statement order -> Gen/C13Sql.lean, conventions S1-S3; SQL text read in four fixed shapes only)",
+    "Model/DataStoreZip.lean (ReadOnlyDataStoreZipped listing over a list of archive entry names), tied on real zip archives of real stores",
     "Spec/DataStoreDict.lean (two dictionaries, one-line semantics per operation), tied to the Python oracle of spec_check on the same histories",
     "the OS file system, pathlib.glob, sqlite3, gzip and md5 are modelled (association lists, abstract checksum function), not verified",
 ]
@@ -651,6 +655,8 @@ def correspondence(ctx):
     out = new_outcome(
         "naming layer: every string of <=4 tokens from {a,b,.,fa,json,txt,log,gz,_} (sampled in quick tier) + the identifier pools, "
         "x store suffix x write suffix, against the real str/pathlib/regex/get_format_suffixes code; "
+        "fmt: the TRANSLATED get_format_suffixes and its primitives on every string of <=4 tokens from {a,B,.,fa,GZ,gz,zip,bz2,json,_,/,results,logs} (sampled in quick tier) vs the real functions; "
+        "zipcorr: the listing model of ReadOnlyDataStoreZipped vs the real class on real archives of real stores (with foreign files); "
         "stores: seeded random histories (1-40 ops + interleaved observations, then observe / re-open read-only / observe) over "
         "adversarial identifier pools on real DataStoreDirectory and DataStoreSqlite objects vs the Lean state machines, "
         "comparing every operation's result (member id / None / exception class), the existence of not_completed/ and logs/ after every call, "
